@@ -520,7 +520,9 @@ def sort_unique(t, xs, key=lambda x: x):
 
 # ---------------------------------------------------------------------------------------------- generators
 NAME_POOL = ['a', 'b', 'c', 'a', 'x', 'owner', 'nat_0', 'nat_1', 'pair_0', 'pair_1', 'or_1', 'unit_0', 'unit_1', 'string_1',
-             'option_0', 'int_2', 'map_1', 'big_map_0', 'list_1', 'set_0', 'bytes_1', 'bool_0', 'mutez_1', 'timestamp_0', '']
+             'option_0', 'int_2', 'map_1', 'big_map_0', 'list_1', 'set_0', 'bytes_1', 'bool_0', 'mutez_1', 'timestamp_0', '',
+             # the annotation grammar `[@:%][_0-9a-zA-Z][_0-9a-zA-Z\.%@]*` allows `.`, `%`, `@` after the first character: `%a%` is the name `a%`
+             'a%', 'a%%', 'x.y', 'a@', 'a%b', '_a', 'nat_1%']
 
 
 def rand_ann(rng, p_field, p_type, allow_field=True):
